@@ -1,5 +1,5 @@
 --------------------------- MODULE LifecycleTrace ---------------------------
-(* Trace validation of Lifecycle.tla itself (facets svc and app): after     *)
+(* Trace validation of Lifecycle.tla itself (facets svc, app, fs): after     *)
 (* every environment step of a tour the harness reads the node's power      *)
 (* state and countdown, the component's operating state, health and timers  *)
 (* from the live objects; the model's step for the same action must produce *)
